@@ -143,6 +143,16 @@ def ref_apply(
         _, inner, pref, _bt, do_transfer, _req = op
         # an engine-restricted expression is acceptable if the preferred engine supports it (whether the
         # call then succeeds by backtracking/transfer or raises EngineError is judged on the real tree)
+        if inner[0] == "join" and (_bt or do_transfer):
+            other = scen_operand(val, inner[1], scen)
+            if other.eng != val.eng:
+                # a join whose operands live in different engines is still a well-defined relation when
+                # backtracking/transfer may place it; evaluate it where the partner lives and put the result
+                # in the engine the real call put it (judging EngineError vs. success is the checks' business)
+                moved = ref_apply(val, ("xfer", other.eng), scen)
+                res = ref_apply(moved, inner, scen, None)
+                home = observed_engine if observed_engine in (val.eng, other.eng, pref) else val.eng
+                return res if home == res.eng else ref_apply(res, ("xfer", home), scen)
         _ALSO_ALLOWED.append(scen.kind(pref))
         try:
             if do_transfer and pref != val.eng and observed_engine == pref:
